@@ -41,6 +41,11 @@ def step (_ : Unit) (fields : List String) (impl : String) : Unit × Reply :=
     -- connection - the response is delivered like any other (C07_delivery_when_registered)
     let ok := impl == "resume=true got=1 closed=true ordinary=0 panics=0"
     ((), ⟨"resume=true got=1 closed=true ordinary=0 panics=0", ok, true, ok, "-"⟩)
+  | ["wire", _] =>
+    -- six responses as bytes through the real receive loop (error elements with a numeric / empty / non-numeric /
+    -- absent legacy code, with and without a condition, child-less result and error): each pending request gets its own
+    let want := "got=6 closed=6 ordinary=0 panics=0"
+    ((), ⟨want, want == impl, true, want == impl, "-"⟩)
   | ["edge", kind, _] =>
     -- sendfail: the failed request leaves no entry behind, the late response goes to the ordinary routes;
     -- handlersend: responses nobody waits for reach the handler, whose own SendIQ calls return (nothing blocked)
